@@ -36,6 +36,10 @@ pub enum StopCase {
     /// (forced recaptures, single flights, only an en-passant capture or a promotion left …) the earliest stop instants
     /// are tried: whatever the fallback choice looks at, it must find one of the few legal moves
     FewMoves { walk: Walk },
+    /// a tiny position searched as deep as it goes, then the same position at the end of a record of `plies` shuffle
+    /// plies (where the table remembers more depth than the record leaves room for): `go infinite` + `stop`, `go
+    /// movetime 1` and an exhausted clock must each be answered with a legal move
+    DeepThenStop { fen: String, plies: u16 },
 }
 
 pub struct C07;
@@ -287,6 +291,21 @@ impl Prop for C07 {
                 report(case, f);
             }
         }
+        // deep cache, then a long record, then stopped / starved searches
+        let mut k3 = 2000u64;
+        for fen in ["8/8/4k3/8/8/3K4/8/8 w - - 0 1", "8/8/8/4k3/8/8/4K3/8 w - - 0 1", "6k1/8/5K2/7P/8/8/8/8 w - - 0 1"] {
+            for plies in [372u16, 392, 396] {
+                k3 += 1;
+                if !ctx.owns(k3) {
+                    continue;
+                }
+                let case = StopCase::DeepThenStop { fen: fen.to_string(), plies };
+                ctx.note_inflight("C07", &case);
+                if let Err(f) = self.check(ctx, &case, ev) {
+                    report(case, f);
+                }
+            }
+        }
         // self-play with next to no thinking time
         let mut k2 = 1000u64;
         for fen in ["rnbqkbnr/pppppppp/8/8/8/8/PPPPPPPP/RNBQKBNR w KQkq - 0 1", "8/8/8/8/8/4k3/4p3/4K3 b - - 0 1", "6k1/5ppp/8/8/8/8/r4PPP/1R4K1 w - - 0 1", "8/5k2/8/8/8/2Q5/2K5/8 w - - 0 1"] {
@@ -337,7 +356,7 @@ impl Prop for C07 {
     }
 
     fn rule(&self) -> String {
-        "Cases: end positions of generated walks, fresh or warm table (warm = after a depth-2 search of the same position). In-process the node-entry hook flips the stop flag after exactly N polls, N enumerated exhaustively 0..=64 and then geometrically (x1.4) up to the poll count of the full depth-limited search (depth 3-4), one search per N: the result must be a move legal in the reference model whenever the model has one (None only for checkmate/stalemate roots), and the hook must count 0 node entries after the flip; for a sample of stop instants every cached child of the root is then searched (depth 1-2) with the table the stopped search left behind and must get a legal answer too. Twelve game records that end in a forced repetition (three perpetual-check roots and their colour mirrors, the cycle a b a' b' a played once or after one earlier turn, so that the side to move has a single legal move and it is the one the root repetition filter removes) get the same sweep at depths 2-4 and, through the real binary, `go infinite` + `stop`, `go movetime 0/1` and an exhausted clock. Nine cases in ten are (cheap) walks whose picks prefer checks and captures: at every position along them with one to three legal moves (forced recaptures, single flights, only a capture or a promotion left) the stop before the start and the stop at polls 0, 1, 2, 3 and 6 of a depth-2 search must each yield one of those moves. Twelve self-play runs (`rustybait auto 0|1|2` from four start positions: every search is ended by the timer almost at once) must go on until the last printed position has no legal move or the length guard ends the game. Five fixed boards (start, Kiwipete, 5+5 queens, 8+8 queens, 9+9 queens) get `go depth d`, `stop` after 150 ms through the real binary and must answer within 10 s. Every sweep also contains the stop that is there before the search starts (flag already down), once with the table as it is and once with the root cached at full depth. About 1 case in 12 drives the real binary (half of them after a depth-3 search of the same root in the same session): `go infinite` immediately followed by `stop`, `go movetime 0..10`, or VERIF_STOP_AFTER_POLLS=N with `go depth 4`; `bestmove none` with legal moves available is the violation. evaluations = stopped searches. Non-trivial: N smaller than the polls a depth-1 iteration needs (the window in which no iteration has completed), and every binary session; distinct by (position, N).".into()
+        "Cases: end positions of generated walks, fresh or warm table (warm = after a depth-2 search of the same position). In-process the node-entry hook flips the stop flag after exactly N polls, N enumerated exhaustively 0..=64 and then geometrically (x1.4) up to the poll count of the full depth-limited search (depth 3-4), one search per N: the result must be a move legal in the reference model whenever the model has one (None only for checkmate/stalemate roots), and the hook must count 0 node entries after the flip; for a sample of stop instants every cached child of the root is then searched (depth 1-2) with the table the stopped search left behind and must get a legal answer too. Twelve game records that end in a forced repetition (three perpetual-check roots and their colour mirrors, the cycle a b a' b' a played once or after one earlier turn, so that the side to move has a single legal move and it is the one the root repetition filter removes) get the same sweep at depths 2-4 and, through the real binary, `go infinite` + `stop`, `go movetime 0/1` and an exhausted clock. Nine cases in ten are (cheap) walks whose picks prefer checks and captures: at every position along them with one to three legal moves (forced recaptures, single flights, only a capture or a promotion left) the stop before the start and the stop at polls 0, 1, 2, 3 and 6 of a depth-2 search must each yield one of those moves. Nine sessions search a tiny position to the depth ceiling and then, at the end of a 372-396-ply record of the same position, require a legal answer to `go infinite` + `stop`, `go movetime 0/1` and an exhausted clock. Twelve self-play runs (`rustybait auto 0|1|2` from four start positions: every search is ended by the timer almost at once) must go on until the last printed position has no legal move or the length guard ends the game. Five fixed boards (start, Kiwipete, 5+5 queens, 8+8 queens, 9+9 queens) get `go depth d`, `stop` after 150 ms through the real binary and must answer within 10 s. Every sweep also contains the stop that is there before the search starts (flag already down), once with the table as it is and once with the root cached at full depth. About 1 case in 12 drives the real binary (half of them after a depth-3 search of the same root in the same session): `go infinite` immediately followed by `stop`, `go movetime 0..10`, or VERIF_STOP_AFTER_POLLS=N with `go depth 4`; `bestmove none` with legal moves available is the violation. evaluations = stopped searches. Non-trivial: N smaller than the polls a depth-1 iteration needs (the window in which no iteration has completed), and every binary session; distinct by (position, N).".into()
     }
 
     fn assumptions(&self) -> Vec<String> {
@@ -465,6 +484,53 @@ impl Prop for C07 {
                     }
                 }
                 ev.nontrivial(fp_bytes(format!("{}{}", fen, millis).as_bytes()), || json!({"self_play_from": fen, "millis_per_move": millis, "positions": positions, "ended_by_length_guard": too_long}));
+                Ok(())
+            }
+            StopCase::DeepThenStop { fen, plies } => {
+                let p = Pos::from_fen(fen).map_err(|e| Fail::new("harness", e))?;
+                let legal: Vec<String> = p.legal().iter().map(|m| m.uci()).collect();
+                let Some(cycle) = shuffle_cycles(&p).into_iter().next() else {
+                    ev.skip("no shuffle cycle in this position");
+                    return Ok(());
+                };
+                let mut record: Vec<String> = Vec::new();
+                while record.len() + 4 <= (*plies as usize).min(396) {
+                    record.extend(cycle.iter().map(|m| m.uci()));
+                }
+                let mut s = Session::start(&[]).map_err(|e| Fail::new("harness", e))?;
+                s.send(&format!("position fen {}", fen));
+                s.send("go depth 255");
+                if s.read_until(|l| l.starts_with("bestmove"), 8_000).is_none() {
+                    s.send("stop");
+                    if s.read_until(|l| l.starts_with("bestmove"), 8_000).is_none() {
+                        s.kill();
+                        return Err(Fail::new("no-bestmove-after-stop", format!("{} : `go depth 255` then `stop`: no bestmove within 8 s", fen)));
+                    }
+                }
+                s.send("wait");
+                for go in ["go infinite", "go movetime 1", "go wtime 10 btime 10 winc 0 binc 0", "go movetime 0"] {
+                    s.send(&format!("position fen {} moves {}", fen, record.join(" ")));
+                    s.send(go);
+                    if go == "go infinite" {
+                        s.send("stop");
+                    }
+                    ev.eval();
+                    ev.class("stopped_searches_after_a_deep_cache_and_a_long_record");
+                    let Some(lines) = s.read_until(|l| l.starts_with("bestmove"), 8_000) else {
+                        let tail = s.transcript_tail(6);
+                        s.kill();
+                        return Err(Fail::new("no-bestmove-after-stop", format!("{} searched to the depth ceiling, then after {} plies `{}`: no bestmove within 8 s ({})", fen, record.len(), go, tail)));
+                    };
+                    let bm = uci::bestmove_of(&lines).unwrap_or_default();
+                    if !legal.contains(&bm) {
+                        s.kill();
+                        let sig = if bm == "none" { "stopped-search-returns-no-move" } else { "stopped-search-returns-illegal-move" };
+                        return Err(Fail::new(sig, format!("{} searched to the depth ceiling, then after {} shuffle plies `{}`: bestmove {} ; legal {:?}", fen, record.len(), go, bm, legal)));
+                    }
+                    s.send("wait");
+                }
+                ev.nontrivial(mix(fp_pos(&p) ^ 0xDEE9 ^ *plies as u64), || json!({"position": fen, "record_plies": record.len()}));
+                s.quit();
                 Ok(())
             }
             StopCase::FewMoves { walk } => {
